@@ -1094,3 +1094,53 @@ func closeSites(fn *ssa.Function) []closeSite {
 	}
 	return out
 }
+
+// C10.delivered-means-nil: the arm of Send's select in which the value was handed to the data channel reports success - the
+// constant nil - whatever the context's state is by then. `select {...; case <-ctx.Done(): case s.c <- x: }; return ctx.Err()`
+// reports an error for a value that WAS delivered when the context expires at the same moment: the sender re-sends it and the
+// receiver sees it twice.
+var _ = late(func() {
+	p := properties["C10"]
+	p.Rules = append(p.Rules, &Rule{ID: "C10.delivered-means-nil", Floor: 1, Clause: "every return of PipeSender.Send that is reached through the select arm that sent the value on the data channel yields the constant nil (a shared `return ctx.Err()` after the select turns a delivered value into a reported failure when the context has expired meanwhile)",
+		Run: func(c *Ctx, r *R) {
+			fn := c.fn("stream.PipeSender.Send")
+			if fn == nil {
+				r.undecided("stream.PipeSender.Send|missing", token.NoPos, "anchor not found")
+				return
+			}
+			n := 0
+			for _, fr := range deepFrames(fn, 2) {
+				for _, op := range chanOpsOf(fr.f) {
+					if op.kind != "select" {
+						continue
+					}
+					for _, a := range op.arms {
+						if !a.send || a.body == nil || chanElemIsEmptyStruct(a.ch.Type()) {
+							continue
+						}
+						// returns reached from the arm's body; the value on that way (through a merge at the return)
+						instrs(fr.f, func(b *ssa.BasicBlock, _ int, in ssa.Instruction) {
+							ret, ok := in.(*ssa.Return)
+							if !ok || len(ret.Results) == 0 || !(b == a.body || reaches(a.body, b)) {
+								return
+							}
+							last := len(ret.Results) - 1
+							if _, isErr := returnedValue(ret, last).Type().Underlying().(*types.Interface); !isErr {
+								return
+							}
+							for _, vr := range virtualReturnsOf(ret, last) {
+								if !(vr.blk == a.body || reaches(a.body, vr.blk) || vr.blk == b) {
+									continue
+								}
+								n++
+								r.ok(isNilConst(vr.val), "stream.PipeSender.Send|sent-arm-return#"+itoa(n), retPos(ret), "the path on which the value was handed to the receiver returns "+path(vr.val)+" instead of nil: a delivered value is reported as failed when the context has expired by then (the caller re-sends it, the receiver gets it twice)")
+							}
+						})
+					}
+				}
+			}
+			if n == 0 {
+				r.undecided("stream.PipeSender.Send|sent-arm-return", fn.Pos(), "no return reached from the sending arm found")
+			}
+		}})
+})
